@@ -98,6 +98,15 @@ pub fn check_unary(rope: &Rope<'_>, s: &str) -> Result<(), String> {
   ck!("== &str (equal)", *rope == s, true, s);
   ck!("== str (equal)", *rope == *s, true, s);
   ck!("== Rope::from(str)", *rope == Rope::from(s), true, s);
+  {
+    // the other one-piece constructors
+    let owned = s.to_string();
+    let cow: std::borrow::Cow<str> = std::borrow::Cow::Borrowed(s);
+    ck!("== Rope::from(&String)", *rope == Rope::from(&owned), true, s);
+    ck!("Rope::from(&Cow) == rope", Rope::from(&cow) == *rope, true, s);
+    ck!("Rope::from(&String).len()", Rope::from(&owned).len(), s.len(), s);
+    ck!("Rope::from(&Cow).to_string()", Rope::from(&cow).to_string(), s.to_string(), s);
+  }
   ck!("Rope::from(str) == rope", Rope::from(s) == *rope, true, s);
   // a same-length different string
   if !s.is_empty() {
